@@ -12,6 +12,8 @@ import Mathlib.Analysis.Normed.Group.Basic
 import Mathlib.Tactic.FieldSimp
 import Mathlib.Tactic.Linarith
 import Mathlib.Analysis.SpecialFunctions.Sqrt
+import Mathlib.Tactic.NormNum
+import Mathlib.Tactic.Positivity
 
 namespace OdlModel.C02
 open OdlModel.Weighting Finset
@@ -418,5 +420,89 @@ theorem dNorm_two_sq (close1 : ℝ → Bool) (u : Bool) (axes : List (Axis ℝ))
     ring
   · simp only [h]
     exact tNorm_two_sq close1 w (axesSize axes) hw x
+
+theorem maxTo_mul_left (k : ℝ) (hk : 0 ≤ k) (n : Nat) (f : Nat → ℝ) :
+    maxTo n (fun i => k * f i) = k * maxTo n f := by
+  induction n with
+  | zero => simp [maxTo]
+  | succ n ih => simp only [maxTo, ih, mul_max_of_nonneg _ _ hk]
+
+theorem maxTo_nonneg (n : Nat) (f : Nat → ℝ) : 0 ≤ maxTo n f := by
+  induction n with
+  | zero => simp [maxTo]
+  | succ n ih => simp only [maxTo]; exact le_max_of_le_left ih
+
+theorem maxTo_mono (n : Nat) (f g : Nat → ℝ) (h : ∀ i, i < n → f i ≤ g i) :
+    maxTo n f ≤ maxTo n g := by
+  induction n with
+  | zero => simp [maxTo]
+  | succ n ih =>
+    simp only [maxTo]
+    exact max_le_max (ih (fun i hi => h i (by omega))) (h n (by omega))
+
+theorem maxTo_add_le (n : Nat) (f g : Nat → ℝ) :
+    maxTo n (fun i => f i + g i) ≤ maxTo n f + maxTo n g := by
+  induction n with
+  | zero => simp [maxTo]
+  | succ n ih =>
+    simp only [maxTo]
+    refine max_le ?_ ?_
+    · exact ih.trans (add_le_add (le_max_left _ _) (le_max_left _ _))
+    · exact add_le_add (le_max_right _ _) (le_max_right _ _)
+
+/-- weighted ℓ² Minkowski inequality -/
+theorem l2_tri (n : Nat) (ω : Nat → ℝ) (hω : ∀ i, i < n → 0 ≤ ω i) (x y : Nat → 𝕜) :
+    Real.sqrt (∑ i ∈ range n, ‖x i + y i‖ ^ 2 * ω i) ≤
+      Real.sqrt (∑ i ∈ range n, ‖x i‖ ^ 2 * ω i) + Real.sqrt (∑ i ∈ range n, ‖y i‖ ^ 2 * ω i) := by
+  set A := ∑ i ∈ range n, ‖x i‖ ^ 2 * ω i
+  set B := ∑ i ∈ range n, ‖y i‖ ^ 2 * ω i
+  set C := ∑ i ∈ range n, ‖x i‖ * ‖y i‖ * ω i
+  have hA : 0 ≤ A := Finset.sum_nonneg (fun i hi => mul_nonneg (sq_nonneg _) (hω i (mem_range.mp hi)))
+  have hB : 0 ≤ B := Finset.sum_nonneg (fun i hi => mul_nonneg (sq_nonneg _) (hω i (mem_range.mp hi)))
+  have hC2 : C ^ 2 ≤ A * B := by
+    apply Finset.sum_sq_le_sum_mul_sum_of_sq_le_mul
+    · intro i hi; exact mul_nonneg (sq_nonneg _) (hω i (mem_range.mp hi))
+    · intro i hi; exact mul_nonneg (sq_nonneg _) (hω i (mem_range.mp hi))
+    · intro i _; exact le_of_eq (by ring)
+  have hC : C ≤ Real.sqrt A * Real.sqrt B := by
+    rw [← Real.sqrt_mul hA]
+    exact Real.le_sqrt_of_sq_le hC2
+  have hsum : ∑ i ∈ range n, ‖x i + y i‖ ^ 2 * ω i ≤ A + 2 * C + B := by
+    have : A + 2 * C + B = ∑ i ∈ range n, (‖x i‖ + ‖y i‖) ^ 2 * ω i := by
+      simp only [A, B, C, Finset.mul_sum, ← Finset.sum_add_distrib]
+      exact Finset.sum_congr rfl (fun i _ => by ring)
+    rw [this]
+    refine Finset.sum_le_sum (fun i hi => ?_)
+    have h1 : ‖x i + y i‖ ≤ ‖x i‖ + ‖y i‖ := norm_add_le _ _
+    have h2 : ‖x i + y i‖ ^ 2 ≤ (‖x i‖ + ‖y i‖) ^ 2 := by gcongr
+    exact mul_le_mul_of_nonneg_right h2 (hω i (mem_range.mp hi))
+  rw [Real.sqrt_le_iff]
+  refine ⟨by positivity, hsum.trans ?_⟩
+  have : (Real.sqrt A + Real.sqrt B) ^ 2 = A + 2 * (Real.sqrt A * Real.sqrt B) + B := by
+    rw [add_sq, Real.sq_sqrt hA, Real.sq_sqrt hB]; ring
+  rw [this]; linarith
+
+/-! ### a concrete instance (used for the non-vacuity examples in `Props/C02.lean`) -/
+
+/-- array-weighted product of a constant-weighted tensor space and a discretized space with
+both end nodes on the boundary -/
+noncomputable def exSpace : Space ℝ :=
+  .prod 2 (.arr fun k => (k : ℝ) + 1) .two
+    (fun k => if k = 0 then .tens 3 (.const 2) .two
+      else .discr true [⟨3, 1 / 2, 1 / 2⟩] (.const (1 / 2)) .two)
+
+noncomputable def exEl : El ℝ := .tup (fun _ => .vec (fun i => (i : ℝ) + 1))
+
+theorem exSpace_pos : SpacePos exSpace := by
+  refine ⟨fun k _ => by simp only [pwFn]; positivity, fun k _ => ?_⟩
+  by_cases h : k = 0
+  · simp only [h, ↓reduceIte, SpacePos, twPos, twFn]; intro _ _; norm_num
+  · simp only [h, ↓reduceIte, SpacePos, twPos, twFn, axesPos]
+    refine ⟨fun _ _ => by norm_num, fun a ha => ?_⟩
+    simp only [List.mem_singleton] at ha; subst ha; norm_num
+
+theorem exEl_shaped : Shaped exSpace exEl := by
+  intro k
+  by_cases h : k = 0 <;> simp [h, Shaped]
 
 end OdlModel.C02
